@@ -692,7 +692,7 @@ pub fn checked_action_on<SP: StorageProvider>(
                 // how the injected fault surfaced is not prescribed (a faulted fact query surfaces as a policy error)
                 info.label(if matches!(e, ClientError::StorageError(_)) { "fault_surfaced_as_storage_error" } else { "fault_surfaced_as_other_error" });
             }
-            if sim.failed.is_none() {
+            if sim.failed.is_none() && fired == 0 {
                 info.label("zero_publish_err");
             }
             ensure!(post.heads == pre.heads, "failed action changed the head set", "{} error={e} after={:?}", ctx(), post.heads);
@@ -703,7 +703,7 @@ pub fn checked_action_on<SP: StorageProvider>(
                 info.label("err_without_rollback");
             }
             if under_test {
-                info.label(format!("err:{}", sim.failed.unwrap_or("nothing published")));
+                info.label(format!("err:{}", sim.failed.unwrap_or(if fired > 0 { "injected storage fault" } else { "nothing published" })));
             }
             if sim.published > 0 {
                 st.fail_after_publish += 1;
@@ -1147,7 +1147,7 @@ pub fn run(ctx: &Ctx) -> ! {
          every operation starts from exactly the state the previous one ended in; after the fault is cleared delivery and two plain actions succeed and commit exactly what \
          the model (ignoring the failed operations) says; non-trivial = at least one operation failed because of an injected fault",
         fcase,
-        n / 2,
+        n / 3,
         |c: &FCase, info| check_fault_case(&m, c, info),
     );
     rep.finish()
